@@ -168,7 +168,7 @@ fn parse_args() -> Args {
         trace: None,
         scale: 1.0,
         profile: "checked".into(),
-        phases: "dense,free,sched,sched-long,tiny".into(),
+        phases: "dense,free,sched,sched-long,sched-growth,tiny".into(),
         from_bytes: None,
     };
     let mut it = std::env::args().skip(1);
@@ -374,8 +374,14 @@ fn main() {
     let (n_free, n_sched) = if thorough { def.thorough } else { def.quick };
     let long_cfg = def.long.as_ref().map(|x| x.0.clone());
     let n_long = def.long.as_ref().map(|x| if thorough { x.2 } else { x.1 }).unwrap_or(0);
-    let phases: [(&'static str, &Option<vharness::gen::GenCfg>, u32); 3] =
-        [("free", &def.free, n_free), ("sched", &def.sched, n_sched), ("sched-long", &long_cfg, n_long)];
+    let growth_cfg = def.growth.as_ref().map(|x| x.0.clone());
+    let n_growth = def.growth.as_ref().map(|x| if thorough { x.2 } else { x.1 }).unwrap_or(0);
+    let phases: [(&'static str, &Option<vharness::gen::GenCfg>, u32); 4] = [
+        ("free", &def.free, n_free),
+        ("sched", &def.sched, n_sched),
+        ("sched-long", &long_cfg, n_long),
+        ("sched-growth", &growth_cfg, n_growth),
+    ];
     for (phase, cfg, n) in phases {
         let Some(cfg) = cfg else { continue };
         if !args.phases.split(',').any(|p| p == phase) {
@@ -388,7 +394,7 @@ fn main() {
         }
         let adjust = def.adjust;
         let strategy = case_strategy(cfg).prop_map(move |c| adjust(c));
-        let seed = args.seed ^ salt(def.id) ^ ((shard_i as u64) << 40) ^ if phase == "sched" { 0xABCD_0000_0000 } else if phase == "sched-long" { 0x1234_0000_0000 } else { 0 } ^ if args.profile == "checked" { 0 } else { 0x77 };
+        let seed = args.seed ^ salt(def.id) ^ ((shard_i as u64) << 40) ^ if phase == "sched" { 0xABCD_0000_0000 } else if phase == "sched-long" { 0x1234_0000_0000 } else if phase == "sched-growth" { 0x6A0_0000_0000 } else { 0 } ^ if args.profile == "checked" { 0 } else { 0x77 };
         let config = Config {
             cases: n,
             failure_persistence: None,
